@@ -128,6 +128,9 @@ func selftest(args []string) int {
 		b := buildLib(cfg, "quick", sub)
 		v, st := crossProcessDeterminism(cfg, b, "quick", 7, 400)
 		report("libsim determinism "+id+" (GOMAXPROCS 1/4/16/2)", v == nil && st["schedule_hash_mismatch_across_gomaxprocs"] == 0, fmt.Sprintf("%d cases x %d processes, %d schedule mismatches", st["determinism_cases_compared"], st["determinism_processes"], st["schedule_hash_mismatch_across_gomaxprocs"]))
+		if v != nil {
+			fmt.Printf("  %s@%s: %s\n", v.Kind, v.Site, v.Detail)
+		}
 	}
 	{
 		cfg := cfgs["C13"]
